@@ -76,6 +76,10 @@ def order_key(ogp, entry):
     if not (isinstance(clo, tuple) and clo and clo[0] == 'closure'):
         return None
     try:
+        if m == 'dedup_all_by_key':
+            r = ogp.it.apply_detached(clo, [A])
+            r = r[1] if r[0] == 't' else r
+            return r[3][0] if r[0] == 'mcall' and r[2] == 'insert' and len(r[3]) == 1 else None
         if m in ('sort_by_key', 'dedup_by_key', 'sort_unstable_by_key'):
             return ogp.it.apply_detached(clo, [A])
         r = ogp.it.apply_detached(clo, [A, B])
@@ -118,6 +122,27 @@ def run(rep):
         k_d, k_s = (order_key(ogp, chain[0]), order_key(ogp, chain[1])) if len(chain) == 2 else (None, None)
         ok = len(chain) == 2 and chain[0][2].startswith('dedup') and chain[1][2].startswith('sort') and \
             k_d is not None and k_d == k_s and chain[0][4] == TRUE and chain[1][4] == TRUE
+        if len(chain) == 1 and chain[0][2] == 'dedup_all_by_key' and chain[0][4] == TRUE:
+            # order-preserving: `retain(|s| seen.insert(key(s)))` with a set that nothing else fills removes every repeat, adjacent or not
+            seen_set = chain[0][3][1]
+            others = [e_ for q_, effs_ in ogp.effects.items() for e_ in effs_ if e_['kind'] == 'mutate' and e_.get('target') == seen_set]
+            k_d = order_key(ogp, chain[0])
+            ok = k_d is not None and not others
+            k_s = k_d
+        # the key identifies the struct: it is the field of the collected record that holds the WGSL type's own name (two different structs
+        # must never compare equal, or one of them loses its impl block)
+        if ok:
+            recs = []
+            E.walk(base, lambda x: recs.append(x) if x[0] == 'struct' and isinstance(x[2], dict) else None)
+            A_ = ('param', '$key', 'a')
+            kf = k_d[2] if k_d[0] == 'f' and k_d[1] == A_ else None
+            named = []
+            for r_ in recs:
+                if kf in r_[2]:
+                    E.walk(r_[2][kf], lambda x: named.append(x) if x[0] == 'f' and x[2] == 'name' and x[1][0] == 'idx' and x[1][1][0] == 'f' and x[1][1][2] == 'types' else None)
+            rep.check(kf is not None and bool(named), 'C07.C.dedup-key', 'dedup-key', where,
+                      f'vertex input structs are de-duplicated by {E.show(k_d, maxdepth=4)}, which is not the WGSL struct\'s own name: two different structs can compare equal and one of them '
+                      f'loses its impl block (attribute table and layout function)', ok_detail='de-duplicated by the struct name')
         rep.check(ok, 'C07.C.sort-then-dedup', 'sort-then-dedup', where,
                   f'shared vertex input structs are de-duplicated by {list(reversed(names))}: only `sort_by_key(k)` followed by `dedup_by_key(k)` with the same key removes non-adjacent repeats '
                   f'(a struct used by several entries would get two impl blocks)', ok_detail='sort_by_key(name) then dedup_by_key(name)')
